@@ -26,8 +26,9 @@ let chunks_of s = if s = "-" then [] else Stdlib.List.map bytes_of_hex (split_on
 
 let handle_xread words =
   match words with
-  | ["ws"; cs] ->
-    (match XRead.ws_read (chunks_of cs) with
+  | [("ws" | "wl") as mode; cs] ->
+    (* wl: the whole-line reader of -I *)
+    (match XRead.ws_read (mode = "wl") (chunks_of cs) with
      | XRead.Err -> "err"
      | XRead.Ok l -> String.concat " " ("ok" :: Stdlib.List.map (fun (t, h) -> hex_of_bytes t ^ (if h then ":1" else ":0")) l))
   | ["bd"; d; cs] ->
